@@ -326,6 +326,21 @@ def run(ctx):
             ctx.oracle_fail(o.get("why", "corpus witness"), "convert\t%s" % vlib.enc_text(o["src"]), dec(g), o["expect"],
                             input_text=o["src"])
 
+    # ---- the documented vocabulary (command.md: rows `| word | description (="mml") |`): every documented word converts to
+    #      its documented MML.  The documentation generator cuts the MML at its first ',' or ')', so the documented text is a
+    #      PREFIX of the converted one; the row of デクレッシェンド is stale (it still shows the text from before repo fix e64c310). ----
+    doc = re.findall(r'^\| (\S+) \| .*?\(="(.*)\) \|\s*$', open(os.path.join(vlib.REPO, "command.md"), encoding="utf-8").read(), re.M)
+    # (rows whose documented text contains a parenthesis are garbled by the documentation generator - 音源初期化 reads
+    #  "System.MeasureShift(1ResetGM;Time(1:1:0TrackSync;" - and are left out)
+    doc = [(w, m[:-1] if m.endswith('"') else m) for w, m in doc if w not in ("デクレッシェンド",) and "(" not in m]
+    if len(doc) < 60:
+        ctx.proof_problems.append("command.md: fewer than 60 vocabulary rows with (=\"..\") found - the documented-vocabulary oracle has nothing to check")
+    got = R.convert_pairs([w for w, _ in doc], "documented_vocabulary")
+    for (w, m), g in zip(doc, got):
+        if not dec(g).strip().startswith(m.strip()):
+            ctx.oracle_fail("a documented vocabulary word does not convert to its documented MML (command.md)", "convert\t%s" % vlib.enc_text(w), dec(g), m + "...",
+                            input_text=w)
+
     # ---- (a) every row, every word/extension pair, random readings ----
     per_row = []
     for r in rows:
